@@ -75,6 +75,7 @@ def shard(args):
         if filler == "distinct":
             gens.append(families.ws_padding(base))
             gens.append(families.token_overlays(base, country))
+            gens.append(families.wrapped(base))
         if tier == "thorough" and filler in ("distinct", "letters"):
             gens.append(families.double_subst(base))
         k, v = lib.iban_parse(base)
